@@ -342,29 +342,36 @@ Print Assumptions C28_whole_plan_mixed_nonvacuous.
 (* ------------------------------------------------------------------ OPEN: start effects that are written but not read.
    [start_not_read_fragment] (Compilers/T2SCompile.v) is the computable sub-fragment; the three statements below are
    what remains to be proved for it (nothing here is used by a theorem). *)
-(* (a) evaluation ignores fluent symbols that do not occur *)
-Definition C28_whole_eval_ignores_unmentioned_goal : Prop :=
+(* (a) evaluation ignores fluent symbols that do not occur - PROVED (the list version of C06_LA_dcrgoal_eval_frame) *)
+Theorem C28_whole_eval_ignores_unmentioned :
   forall sc fs e (I J : interp),
     no_sym fs e = true ->
     par J = par I -> var J = var I -> ifun J = ifun I -> objs J = objs I ->
     (forall f a, memN f fs = false -> fl J f a = fl I f a) ->
     eval sc e J = eval sc e I.
+Proof. exact eval_ignores_unmentioned. Qed.
+Print Assumptions C28_whole_eval_ignores_unmentioned.
 
-(* (b) the two-happening step: the compiled step from s_s = the start event, then the end event, applied alone from
-   s_t; the kept conditions hold in s_t and in the intermediate state *)
-Definition C28_whole_step_start_not_read_goal : Prop :=
+(* (b) the two-happening step - PROVED: the compiled step from s_s = the start event, then the end event, applied alone
+   from s_t (= s_s extensionally); the start-closed conditions hold in s_t, the end-bounded ones in the intermediate
+   state; the final state is the sequential successor *)
+Theorem C28_whole_step_start_not_read :
   forall sc smp, smp_ok sc smp -> forall (P P' : problem), same_base P P' ->
   forall d a' args (s_s s_t s_s' : state) (x : src) t1 t2,
-    alias_free d = true -> start_not_read_step smp d a' = true -> a_params a' = d_params d ->
+    start_not_read_step smp d a' = true -> a_params a' = d_params d ->
     state_eq s_t s_s -> spec_step sc P' s_s a' args = Some s_s' ->
-    let bind := zip_params (d_params d) args in
-    let ev t l := {| ev_time := t; ev_src := x; ev_bind := bind; ev_effs := l |} in
     exists s_mid s_t',
-      ref_apply sc P s_t [ev t1 (start_effs d)] = Some s_mid /\
-      ref_apply sc P s_mid [ev t2 (end_effs d)] = Some s_t' /\ state_eq s_t' s_s' /\
+      ref_apply sc P s_t [ {| ev_time := t1; ev_src := x; ev_bind := zip_params (d_params d) args;
+                              ev_effs := start_effs d |} ] = Some s_mid /\
+      ref_apply sc P s_mid [ {| ev_time := t2; ev_src := x; ev_bind := zip_params (d_params d) args;
+                                ev_effs := end_effs d |} ] = Some s_t' /\
+      state_eq s_t' s_s' /\
       (forall ic c, In ic (d_conds d) -> In c (snd ic) ->
-         (is_start0 (ti_lo (fst ic)) && negb (ti_lopen (fst ic)) = true -> holds sc (mk_interp P s_t bind) c = true) /\
-         (is_end0 (ti_hi (fst ic)) = true -> holds sc (mk_interp P s_mid bind) c = true)).
+         (is_start0 (ti_lo (fst ic)) && negb (ti_lopen (fst ic)) = true ->
+            holds sc (mk_interp P s_t (zip_params (d_params d) args)) c = true) /\
+         (is_end0 (ti_hi (fst ic)) = true -> holds sc (mk_interp P s_mid (zip_params (d_params d) args)) c = true)).
+Proof. exact step_start_not_read. Qed.
+Print Assumptions C28_whole_step_start_not_read.
 
 (* (c) the plan-level theorem (same induction as [m_compose_run] with up to two happenings per durative step) *)
 Definition C28_whole_plan_start_not_read_goal : Prop :=
